@@ -63,6 +63,7 @@ func (sd *SpecAnalyser) Analyse(spec1, spec2 *spec.Swagger) error {
 	sd.analyseEndpoints()
 	sd.analyseRequestParams()
 	sd.analyseEndpointData()
+	sd.analyseOperationMediaTypes(spec1, spec2)
 	sd.analyseResponseParams()
 	sd.analyseExtensions(spec1, spec2)
 	sd.AnalyseDefinitions()
@@ -179,6 +180,53 @@ func (sd *SpecAnalyser) analyseEndpointData() {
 
 			sd.compareDescripton(location, op1.Operation.Description, op2.Operation.Description)
 
+		}
+	}
+}
+
+// analyseOperationMediaTypes compares the media types consumed and produced by each operation present in both
+// specs, as soon as one of the two declares a list of its own (an operation without one works with the lists of
+// the document, which analyseSpecMetadata compares).
+func (sd *SpecAnalyser) analyseOperationMediaTypes(spec1, spec2 *spec.Swagger) {
+	for URLMethod, op2 := range sd.urlMethods2 {
+		if op1, ok := sd.urlMethods1[URLMethod]; ok {
+			location := DifferenceLocation{URL: URLMethod.Path, Method: URLMethod.Method}
+
+			if len(op1.Operation.Consumes) > 0 || len(op2.Operation.Consumes) > 0 {
+				consumes1, consumes2 := op1.Operation.Consumes, op2.Operation.Consumes
+				if len(consumes1) == 0 {
+					consumes1 = spec1.Consumes
+				}
+				if len(consumes2) == 0 {
+					consumes2 = spec2.Consumes
+				}
+				added, deleted, _ := fromStringArray(consumes1).DiffsTo(consumes2)
+				consumesLocation := location.AddNode(getNameOnlyDiffNode("consumes"))
+				for _, eachAdded := range added {
+					sd.Diffs = sd.Diffs.addDiff(SpecDifference{DifferenceLocation: consumesLocation, Code: AddedConsumesFormat, Compatibility: NonBreaking, DiffInfo: eachAdded})
+				}
+				for _, eachDeleted := range deleted {
+					sd.Diffs = sd.Diffs.addDiff(SpecDifference{DifferenceLocation: consumesLocation, Code: DeletedConsumesFormat, Compatibility: Breaking, DiffInfo: eachDeleted})
+				}
+			}
+
+			if len(op1.Operation.Produces) > 0 || len(op2.Operation.Produces) > 0 {
+				produces1, produces2 := op1.Operation.Produces, op2.Operation.Produces
+				if len(produces1) == 0 {
+					produces1 = spec1.Produces
+				}
+				if len(produces2) == 0 {
+					produces2 = spec2.Produces
+				}
+				added, deleted, _ := fromStringArray(produces1).DiffsTo(produces2)
+				producesLocation := location.AddNode(getNameOnlyDiffNode("produces"))
+				for _, eachAdded := range added {
+					sd.Diffs = sd.Diffs.addDiff(SpecDifference{DifferenceLocation: producesLocation, Code: AddedProducesFormat, Compatibility: NonBreaking, DiffInfo: eachAdded})
+				}
+				for _, eachDeleted := range deleted {
+					sd.Diffs = sd.Diffs.addDiff(SpecDifference{DifferenceLocation: producesLocation, Code: DeletedProducesFormat, Compatibility: Breaking, DiffInfo: eachDeleted})
+				}
+			}
 		}
 	}
 }
